@@ -44,6 +44,7 @@ TNext ==
     \/ Is("count") /\ P_Count(E.h, E.n)
     \/ Is("deliver") /\ Skip
     \/ Is("panic") /\ P_Flag("NoPanic")
+    \/ Is("overdue") /\ P_Overdue(SetOf(E.cs))
 
 TSpec == TInit /\ [][TNext]_<<mpvars, l>>
 
